@@ -47,6 +47,9 @@ func init() { register("order", orderEngine{}) }
 
 var behavs = []string{"pass", "modify", "replace", "stop-resp", "stop-nil"}
 
+// the random mixes also turn responses into DHCPNAKs (no built-in plugin does; a handler may)
+var behavsMix = []string{"pass", "modify", "replace", "stop-resp", "stop-nil", "marknak", "marknak"}
+
 // exhaustive enumeration of behaviours^len for len 0..maxLen
 func orderEnum(idx, maxLen int) ([]orderPlug, bool) {
 	for l := 0; l <= maxLen; l++ {
@@ -85,7 +88,7 @@ func (orderEngine) Gen(rng *rand.Rand, tier string, i int) any {
 		if rng.Intn(3) != 0 && (name == "synfail" || name == "synnil" || name == "nosuchplugin" || name == "synfailh") {
 			name = "syn"
 		}
-		c.Chain = append(c.Chain, orderPlug{name, behavs[rng.Intn(len(behavs))]})
+		c.Chain = append(c.Chain, orderPlug{name, behavsMix[rng.Intn(len(behavsMix))]})
 	}
 	if c.V6 && rng.Intn(5) == 0 {
 		// the last handler answers a relayed request with a complete Relay-Reply of its own
@@ -387,6 +390,31 @@ func (orderEngine) Run(ctx *fw.Ctx, cs any) {
 			}
 			if !found {
 				ctx.Viol("C13", "sent-not-last-response", "%s, request %d: the last handler returned a Relay-Reply whose outer layer carries Subscriber-ID %q; the datagram sent does not carry it (the envelope was rebuilt)", desc, ri, want)
+			}
+		}
+		if len(tr) > 0 && tr[len(tr)-1].OutHex != "" {
+			// the whole message, not only the marker: header fields and every option as they were when the
+			// last handler returned (the link-level path has its own serialiser: compared after one parse)
+			wantB, _ := hex.DecodeString(tr[len(tr)-1].OutHex)
+			got, what := b, "the datagram sent"
+			if c.V6 {
+				if len(b) > 0 && b[0] == 13 && len(wantB) > 0 && wantB[0] != 13 {
+					if _, inner, err := pkt.Unwrap6(b); err == nil {
+						got, what = inner, "the innermost message of the Relay-Reply sent"
+					}
+				}
+			} else if len(r.Caps) == 0 {
+				if d, err := dhcpv4.FromBytes(b); err == nil {
+					got, what = d.ToBytes(), "the message in the frame sent (re-serialised)"
+				}
+			}
+			ctx.Count("order.sent_compared_bytewise", 1)
+			if !bytes.Equal(got, wantB) {
+				at := 0
+				for at < len(got) && at < len(wantB) && got[at] == wantB[at] {
+					at++
+				}
+				ctx.Viol("C13", "sent-differs-from-last-response", "%s, request %d: %s (%d bytes) differs from the response the last handler returned (%d bytes) at offset %d: sent ...%x, returned ...%x", desc, ri, what, len(got), len(wantB), at, clip(got[min(at, len(got)):]), clip(wantB[min(at, len(wantB)):]))
 			}
 		}
 		if !bytes.Equal(mark, lastMark) {
